@@ -146,7 +146,7 @@ func init() {
 			"The shared path keeps no state between calls (pool discipline, no package state). " +
 			"Acceptance additionally requires that the derivation's error was found nil (a failed derivation yields an empty string that an empty code would match).",
 		quick:    []Config{CfgNative},
-		thorough: []Config{CfgNative, Cfg386},
+		thorough: []Config{CfgNative, CfgWasm, Cfg386},
 		run:      runC06,
 	})
 }
